@@ -393,4 +393,136 @@ theorem opSqueeze_ok (S : List Nat) (v v' : View) (h : opSqueeze S v = .ok v') :
   · rw [if_pos h1] at h; cases h
   · rw [if_neg h1] at h; exact h
 
+/-! ### The single-Gather path: exactly one Python int, everything else `:` -/
+
+def gatherF (i : Int) (srcs : List Nat) : Except Err AxisMap :=
+  match normIdx srcs.length i with
+  | some k => (match srcs[k]? with | some s => .ok (.drop s) | none => .error .indexError)
+  | none => .error .indexError
+
+theorem opGatherScalar_eq (axis : Nat) (i : Int) (v : View) :
+    opGatherScalar axis i v = modifyPick axis (gatherF i) v := rfl
+
+theorem numpyAxis_int (i : Int) (srcs : List Nat) : numpyAxis (.int i) srcs = gatherF i srcs := rfl
+
+theorem numpyAxis_skip (c : Comp) (srcs : List Nat) (h : c.kind = Kind.skip) :
+    numpyAxis c srcs = .ok (.pick srcs) := by
+  cases c with
+  | full => rfl
+  | int i => simp [Comp.kind] at h
+  | tScalar v => simp [Comp.kind] at h
+  | tVec v => simp [Comp.kind] at h
+  | slice lo hi st =>
+    cases lo <;> cases hi <;> cases st <;> simp [Comp.kind] at h
+    have e : (Bnd.none).val? = none := rfl
+    simp only [numpyAxis, e, Option.getD]
+    rw [pySliceList_full]
+    rfl
+
+theorem axiswise_all_skip (comps : List Comp) (ds : List Nat) (hlen : comps.length ≤ ds.length)
+    (h : ∀ c ∈ comps, c.kind = Kind.skip) : axiswise numpyAxis comps ds = .ok (View.init ds) := by
+  induction comps generalizing ds with
+  | nil => rfl
+  | cons c cs ih =>
+    cases ds with
+    | nil => simp at hlen
+    | cons d ds =>
+      simp only [axiswise, numpyAxis_skip c _ (h c (by simp)),
+        ih ds (by simpa using hlen) (fun c' hc' => h c' (by simp [hc'])), bind, Except.bind, pure, Except.pure]
+      rfl
+
+/-- One Gather with a rank-0 constant index at position `j`, all other components `:`. -/
+theorem gather_axiswise (i : Int) :
+    ∀ (comps : List Comp) (ds : List Nat) (j : Nat) (r : View),
+      comps.length ≤ ds.length →
+      comps[j]? = some (.int i) →
+      (∀ j' c, j' ≠ j → comps[j']? = some c → c.kind = Kind.skip) →
+      modifyPick j (gatherF i) (View.init ds) = .ok r →
+      axiswise numpyAxis comps ds = .ok r := by
+  intro comps
+  induction comps with
+  | nil => intro ds j r _ hj; simp at hj
+  | cons c cs ih =>
+    intro ds j r hlen hj hskip h
+    cases ds with
+    | nil => simp at hlen
+    | cons d ds =>
+      have hlen' : cs.length ≤ ds.length := by simpa using hlen
+      cases j with
+      | zero =>
+        simp only [List.getElem?_cons_zero, Option.some.injEq] at hj
+        subst hj
+        have hall : ∀ c ∈ cs, c.kind = Kind.skip := by
+          intro c' hc'
+          obtain ⟨n, hn⟩ := List.getElem?_of_mem hc'
+          exact hskip (n + 1) c' (by omega) (by simpa using hn)
+        simp only [View.init, List.map_cons, modifyPick, bind, Except.bind, pure, Except.pure] at h
+        simp only [axiswise, numpyAxis_int, axiswise_all_skip cs ds hlen' hall, bind, Except.bind, pure,
+          Except.pure]
+        cases hg : gatherF i (List.range d) with
+        | error e => simp [hg] at h
+        | ok a => simpa [hg, View.init] using h
+      | succ j =>
+        have hc : c.kind = Kind.skip := hskip 0 c (by omega) (by simp)
+        simp only [View.init, List.map_cons, modifyPick, bind, Except.bind, pure, Except.pure] at h
+        cases hr : modifyPick j (gatherF i) (List.map (fun d => AxisMap.pick (List.range d)) ds) with
+        | error e => simp [hr] at h
+        | ok r' =>
+          have := ih ds j r' hlen' (by simpa using hj)
+            (fun j' c' hne hc' => hskip (j' + 1) c' (by omega) (by simpa using hc')) (by simpa [View.init] using hr)
+          simp only [axiswise, numpyAxis_skip c _ hc, this, bind, Except.bind, pure, Except.pure]
+          simpa [hr] using h
+
+theorem filter_zipIdx_nil_forall (F : Comp → Bool) :
+    ∀ (l : List Comp) (n : Nat), (l.zipIdx n).filter (fun p => F p.1) = [] →
+      ∀ (j : Nat) (c : Comp), l[j]? = some c → F c = false := by
+  intro l
+  induction l with
+  | nil => intro n _ j c hj; simp at hj
+  | cons a l ih =>
+    intro n h j c hj
+    simp only [List.zipIdx_cons, List.filter_cons] at h
+    cases hF : F a with
+    | true => simp [hF] at h
+    | false =>
+      simp only [hF, Bool.false_eq_true, if_false] at h
+      cases j with
+      | zero => simp at hj; subst hj; exact hF
+      | succ j => exact ih (n + 1) h j c (by simpa using hj)
+
+/-- If filtering an indexed list by a predicate leaves exactly `[(c, j)]`, then position `j - n`
+holds `c` and no other position satisfies the predicate. -/
+theorem filter_zipIdx_singleton (F : Comp → Bool) :
+    ∀ (l : List Comp) (n : Nat) (c : Comp) (j : Nat),
+      (l.zipIdx n).filter (fun p => F p.1) = [(c, j)] →
+      n ≤ j ∧ l[j - n]? = some c ∧ ∀ (j' : Nat) (c' : Comp), j' ≠ j - n → l[j']? = some c' → F c' = false := by
+  intro l
+  induction l with
+  | nil => intro n c j h; simp at h
+  | cons a l ih =>
+    intro n c j h
+    simp only [List.zipIdx_cons, List.filter_cons] at h
+    cases hF : F a with
+    | true =>
+      simp only [hF, if_true, List.cons.injEq, Prod.mk.injEq] at h
+      obtain ⟨⟨rfl, rfl⟩, hrest⟩ := h
+      refine ⟨Nat.le_refl _, by simp, ?_⟩
+      intro j' c' hne hc'
+      cases j' with
+      | zero => simp at hne
+      | succ j' =>
+        exact filter_zipIdx_nil_forall F l (n + 1) hrest j' c' (by simpa using hc')
+    | false =>
+      simp only [hF, Bool.false_eq_true, if_false] at h
+      obtain ⟨hle, hget, hothers⟩ := ih (n + 1) c j h
+      refine ⟨by omega, ?_, ?_⟩
+      · have : j - n = (j - (n + 1)) + 1 := by omega
+        rw [this, List.getElem?_cons_succ]; exact hget
+      · intro j' c' hne hc'
+        cases j' with
+        | zero => simp at hc'; subst hc'; exact hF
+        | succ j' =>
+          simp only [List.getElem?_cons_succ] at hc'
+          exact hothers j' c' (by omega) hc'
+
 end OV.Index
